@@ -13,8 +13,9 @@ func c02Strip(s Statement) {
 }
 
 func c02Kind(kind int, tier int) {
-	b, sb := vfBudget(vfStmtGens[kind].name, tier)
-	g := &vfGen{tier: tier, budget: b, sub: sb}
+	// thorough: one deviation with two nested levels; names stay at the quick length (the printers fork on every
+	// character of every name, and pairwise shapes square that cost)
+	g := &vfGen{tier: 0, budget: 1, sub: 1 + tier}
 	name := vfStmtGens[kind].name
 	vfStmtGens[kind].gen(g)
 	text := g.text()
